@@ -39,6 +39,17 @@ theorem softTail_take (buf : List Byte) (off : Nat) (sb : List Byte) (h : (softT
       · simp at h
     · simp at h
 
+theorem softTail_take_pos (buf : List Byte) (off : Nat) (sb : List Byte) (h : (softTail buf off sb).2 = true) :
+    0 < (softTail buf off sb).1.length := by
+  unfold softTail at h ⊢
+  split
+  · simp_all
+  · split
+    · split
+      · split <;> simp_all
+      · simp_all
+    · simp_all
+
 theorem length_wsEnc (c : Byte) : (if c = TAB then [EQ, 48, 57] else [EQ, 50, 48] : List Byte).length = 3 := by
   split <;> rfl
 
@@ -76,16 +87,22 @@ theorem qpGo_ok (buf : List Byte) (off chunk llen : Nat) (sb : List Byte) (st : 
   case case3 ih =>
     rw [cpy_ok (by omega), bind_ok, push_ok (by simp; omega), bind_ok]
     exact ih _ (by omega) (by simp; omega) (by simp; omega)
-  case case4 off chunk llen sb st c _ _ _ _ ih2 ih1 =>
+  case case4 off chunk llen sb st c _ _ _ _ ih3 ih2 ih1 =>
     rw [cpy_ok (by omega), bind_ok, push_ok (by simp; omega), bind_ok]
     have hl := softTail_len buf (off + chunk) (sb ++ (buf.drop off).take chunk)
     have hlen : (sb ++ (buf.drop off).take chunk).length = sb.length + chunk := by simp; omega
-    rw [push_ok (by simp; omega), bind_ok]
     split
     · rename_i ht
       have := softTail_take _ _ _ ht
-      exact ih2 _ (by omega) (by simp; omega) (by simp)
-    · exact ih1 _ (by omega) (by simp; omega) (by simp)
+      split
+      · rename_i hend
+        have hpos := softTail_take_pos _ _ _ ht
+        rw [push_ok (by simp; omega), bind_ok]
+        exact ih3 hend _ (by omega) (by simp; omega) (by simp; omega)
+      · rw [push_ok (by simp; omega), bind_ok]
+        exact ih2 _ (by omega) (by simp; omega) (by simp)
+    · rw [push_ok (by simp; omega), bind_ok]
+      exact ih1 _ (by omega) (by simp; omega) (by simp)
   case case5 ih =>
     rw [cpy_ok (by omega), bind_ok, push_ok (by simp; omega), bind_ok]
     exact ih _ (by omega) (by simp; omega) (by simp; omega)
